@@ -6,7 +6,7 @@ cd /verif
 ids=$(python3 -c "import json; print(' '.join(c['property_id'] for c in json.load(open('MANIFEST.json'))['checks']))")
 for seed in "$@"; do
   for id in $ids; do
-    out=$(VERIF_SEED=$seed ./check $id --tier $tier 2>&1); rc=$?
+    out=$(VERIF_SEED=$seed ./check $id --tier $tier $SWEEP_ARGS 2>&1); rc=$?
     echo "seed=$seed $id exit=$rc $(echo "$out" | grep -E "^$id (quick|thorough):" | tail -1)"
     echo "$out" | grep -E "^VIOLATION|NONDET|harness" | head -5
   done
